@@ -59,19 +59,21 @@ Definition i_mci0 : mci Z Z YY :=
      m_t := 0; m_y := (0%nat, 0); m_set := false; m_log := [] |}.
 
 Definition i_run_one (p : mcprob) (ls : list (list Z)) (s : mci Z Z YY) (seed : sseq)
-    (t0 : Z) (y0 : YY) (ts : list Z) (nj : bool) :=
+    (t0 : Z) (y0 : YY) (ts : list Z) (nj : bool) (fl : Z) :=
   mc_run_one Z Z YY (i_stream (2 ^ 1199) ls) 0 one120 Z.leb Z.ltb i_mix
     (length (p_chans p)) i_prob (i_ode_step p) i_find (i_choose p) (i_jump p) i_renorm
-    1000 s seed t0 y0 ts nj 0.
+    1000 s seed t0 y0 ts nj fl.
 
-(* a history of trajectories on one MCIntegrator: (t0, level0, tlist[1:], no_jump);
-   trajectory number k uses generator number k *)
+(* a history of trajectories on one MCIntegrator:
+   (t0, level0, tlist[1:], no_jump, jump_prob_floor); trajectory number k uses
+   generator number k.  i_mix is exact when floor and the first draw are
+   multiples of 2^-20 (the harness generates them so). *)
 Fixpoint i_history (p : mcprob) (ls : list (list Z)) (s : mci Z Z YY) (k : nat)
-    (h : list (Z * nat * list Z * bool)) : list (mc_traj Z YY) :=
+    (h : list (Z * nat * list Z * bool * Z)) : list (mc_traj Z YY) :=
   match h with
   | [] => []
-  | (t0, l0, ts, nj) :: r =>
-      let '(tr, s') := i_run_one p ls s (fresh (Z.of_nat k)) t0 (l0, 0) ts nj in
+  | (t0, l0, ts, nj, fl) :: r =>
+      let '(tr, s') := i_run_one p ls s (fresh (Z.of_nat k)) t0 (l0, 0) ts nj fl in
       tr :: i_history p ls s' (S k) r
   end.
 
@@ -80,7 +82,7 @@ Definition obs_traj (tr : mc_traj Z YY) :=
   (option_map (map (fun '(t, y) => (t, fst y, snd y))) (tr_states Z YY tr),
    tr_coll Z YY tr,
    map (fun '(r, i) => (role_code r, i)) (tr_draws Z YY tr)).
-Definition i_observe (p : mcprob) (ls : list (list Z)) (h : list (Z * nat * list Z * bool)) :=
+Definition i_observe (p : mcprob) (ls : list (list Z)) (h : list (Z * nat * list Z * bool * Z)) :=
   map obs_traj (i_history p ls i_mci0 0 h).
 
 (* ------------------------------------------------------------- diffusive *)
